@@ -27,6 +27,23 @@ CLAIMED = {
              "Partial: sockets, thread scheduling and stalled readers are runtime behaviour outside the model.",
         note="Trusted: Lean kernel + standard axioms; tiny_http behaviour (500 on dropped request, chunking threshold), Uuid::parse_str modelled and tied by sampled differential runs; translator regexes; harness HTTP client.",
         technique="Lean 4 proof (routing theorems, publication-history induction) + differential correspondence with linearisability check", ref="§7 C14"),
+    "C02": dict(
+        text="Machine-checked proof on the component slice model (one key, host + a list of clients of any length, small-step actions = system runs and deferred closures): "
+             "pipeline invariants for host-writer and client-writer epochs hold for every action sequence (every frame interleaving, system order and delivery split); "
+             "at quiescence every peer holds the most recent write; epochs with different writers separated by a drain compose. Pre-repair semantics (token skip D1, patching apply D13) are refuted by kernel-checked witnesses. "
+             "Tied to the code by translator flags on the three repaired code paths and by projecting real session traces (real Apps, UDP) onto the slice: the model must predict value, token and queue of every peer after every frame.",
+        note="Trusted: Lean kernel + standard axioms; bevy scheduler/change detection/Commands/renet modelled, tied by sampled trace correspondence with the single-threaded executor; trace projection glue; values without NaN.",
+        technique="Lean 4 proof (inductive pipeline invariants over all schedules, any N) + trace-projection correspondence + convergence oracle", ref="§7 C02"),
+    "C09": dict(
+        text="Machine-checked proof on the component slice: a drained state stays silent under any further frames (nothing sent, nothing changed); no peer that applied a network value ever originates a message for it (no echo) in host-writer and client-writer epochs; "
+             "host-writer epochs send at most N messages per write for every schedule. Partial: the numeric bound for client-writer epochs and the parent/entity/asset slices are enforced by the trace oracle (messages <= writes x clients, quiescence within the cap), not yet by theorems.",
+        note="Same trusted base as C02. Partial: see text.",
+        technique="Lean 4 proof (potential-function bound, silence of drained states, no-echo invariants) + trace oracle on message counts", ref="§7 C09"),
+    "C10": dict(
+        text="Machine-checked proof on the component slice with ghost logs: for a host writer, any N, every schedule, the values each client displays form a subsequence of the values written, in order, ending with the last one once drained. "
+             "Partial for a client writer: ending with the last write is proved for the host and every third client behind the relay; the subsequence chain through the relay is checked by the trace oracle (per-frame value sequences of every peer) on every run.",
+        note="Same trusted base as C02. Partial: see text.",
+        technique="Lean 4 proof (Sublist chain invariant with ghost logs) + trace-projection correspondence + subsequence oracle", ref="§7 C10"),
 }
 PENDING_REASON = "not claimed yet: machinery for this property is still being built (see DESIGN.md §10 build order); no check is registered until its theorems and tie run"
 
